@@ -135,3 +135,13 @@ where
         self.info.get_print_buffer()
     }
 }
+
+// verification-only hooks (see /verif); compiled only under the guard cfg
+#[cfg(oxfordcontrol_clarabel_rs_verif)]
+#[allow(missing_docs, non_snake_case)]
+pub mod verif_hooks_solver {
+    use super::*;
+    pub fn check_dimensions<T: FloatT>(P: &CscMatrix<T>, q: &[T], A: &CscMatrix<T>, b: &[T], cone_types: &[SupportedConeT<T>]) {
+        super::_check_dimensions(P, q, A, b, cone_types)
+    }
+}
